@@ -120,8 +120,8 @@ func (r ReadCoilsResponse) Bytes() []byte {
 func (r ReadCoilsResponse) bytes(data []byte) []byte {
 	data[0] = r.UnitID
 	data[1] = FunctionReadCoils
-	coilsByteLen := uint8(len(r.Data))
-	data[2] = coilsByteLen
+	coilsByteLen := len(r.Data)
+	data[2] = uint8(coilsByteLen)
 	copy(data[3:3+coilsByteLen], r.Data)
 
 	return data
